@@ -566,11 +566,13 @@ pub fn run(out: &mut Out, thorough: bool, seed: u64, prop: &str) {
         }
         let kind = t.fmt.split(' ').next().unwrap().to_string();
         for (bytes, class) in inputs {
+            crate::alloc::set_case(&format!("dec {} {}", t.fmt, hex(&bytes)));
             let before = crate::alloc::reset_peak();
             let t0 = Instant::now();
             let res = catch(std::panic::AssertUnwindSafe(|| (t.dec)(&bytes)));
             let dt = t0.elapsed();
             let peak = crate::alloc::peak().saturating_sub(before);
+            crate::alloc::set_case("");
             let imp = match &res {
                 Ok(Ok((enc, _))) => format!("ok {}", hex(enc)),
                 Ok(Err(())) => "err".to_string(),
